@@ -628,8 +628,11 @@ func (f *Frame) applyContract(in ssa.Instruction, cc *ssa.CallCommon, callee *ss
 		g := c.heapGet(st, key, ArrSort(SInt, SInt))
 		gincs = append(gincs, ginc{key, Ite(cond, IntLit(1), IntLit(0)), Select(g, IntLit(0))})
 	}
+	f.freshArraysOnly = blk.Flags["fresh-arrays"]
+	f.preCallAlloc = st.Alloc
 	f.havocFor(callee, blk, cc, st)
 	f.pointwise = nil
+	f.freshArraysOnly = false
 	for _, gi := range gincs {
 		g := c.heapGet(st, gi.name, ArrSort(SInt, SInt))
 		c.setHeap(st, gi.name, c.define("ghost", Store(g, IntLit(0), Add(gi.old, gi.inc))))
@@ -761,6 +764,16 @@ func (f *Frame) havocKeys(ms *modSet, st *State) {
 			}
 		}
 		if pointwise {
+			continue
+		}
+		if f.freshArraysOnly && strings.HasPrefix(k, "A|") {
+			// frame clause "fresh-arrays": existing backing arrays keep their contents
+			cur := c.heapGet(st, k, srt)
+			nv := c.fresh("hvf", srt)
+			c.n++
+			b := Term{fmt.Sprintf("b!%d", c.n), SInt}
+			c.assertDef(nv, Forall([]Term{b}, Implies(Lt(b, f.preCallAlloc), Eq(Select(nv, b), Select(cur, b))), []Term{Select(nv, b)}))
+			c.setHeap(st, k, nv)
 			continue
 		}
 		c.setHeap(st, k, c.fresh("hv", srt))
